@@ -246,7 +246,7 @@ func genPar(g *core.Gen) {
 	if len(all) == 0 {
 		return
 	}
-	for i := 0; i < g.N(70, 2000); i++ {
+	for i := 0; i < g.N(50, 2000); i++ {
 		k := 8 + r.Intn(5)
 		pool := all
 		// most lines are homogeneous: instances of ONE component running side by side are what a
